@@ -10,6 +10,8 @@ mod glue;
 mod refmodel;
 mod report;
 mod sym;
+#[cfg(feature = "sr")]
+mod srx;
 
 use explore::*;
 use report::Evidence;
@@ -35,6 +37,20 @@ fn main() {
     if args[1] == "genseeds" {
         genseeds();
         return;
+    }
+    #[cfg(feature = "sr")]
+    if args[1] == "srcheck" {
+        install_panic_hook();
+        let rows = srx::cross_check(&e2::configs(false));
+        let mut bad = 0;
+        for (name, a, b) in rows.iter() {
+            println!("{} E2={} stateright={} {}", if a == b { "ok      " } else { "MISMATCH" }, a, b, name);
+            if a != b {
+                bad += 1;
+            }
+        }
+        println!("srcheck: {} configurations compared, {} mismatches", rows.len(), bad);
+        std::process::exit(if bad == 0 { 0 } else { 2 });
     }
     if args[1] == "replay" {
         let code = replay(args.get(2).map(|s| s.as_str()).unwrap_or_else(|| usage()));
@@ -228,6 +244,12 @@ fn run_e3_property(id: &str, thorough: bool, ev: &mut Evidence) {
 }
 
 fn run_e2_property(id: &str, thorough: bool, ev: &mut Evidence) {
+    if thorough {
+        if let Ok(t) = std::fs::read_to_string(verif_dir().join("target").join("srcheck.log")) {
+            let lines: Vec<&str> = t.lines().filter(|l| l.starts_with("ok") || l.starts_with("MISMATCH") || l.starts_with("srcheck")).collect();
+            ev.extra.insert("stateright_cross_check_of_E2".into(), serde_json::json!(lines));
+        }
+    }
     let checks = check_bit(id);
     let cfgs = e2::configs(thorough);
     for r in e2::run_configs(id, checks, &cfgs) {
